@@ -75,15 +75,22 @@ structure DQ where
 
 def DQ.qb (d : DQ) : QF := fun s a => d.qc s a - d.qa s a
 
-/-- DoubleQLearning::stepUpdateQ; `coin` is the Bernoulli(1/2) draw `dist_(rand_)` -/
-def dqStep (γ α : Rat) (A : Nat) (d : DQ) (coin : Bool) (s a s1 : Nat) (r : Rat) : DQ :=
+/-- DoubleQLearning::stepUpdateQ with the maximising action `a1` made explicit -/
+def dqStepAt (γ α : Rat) (d : DQ) (coin : Bool) (a1 s a s1 : Nat) (r : Rat) : DQ :=
   if coin then
-    let a1 := argmaxA A (d.qa s1)
     let change := α * (r + γ * (d.qc s1 a1 - d.qa s1 a1) - d.qa s a)
     { qa := upd d.qa s a (d.qa s a + change), qc := upd d.qc s a (d.qc s a + change) }
   else
-    let a1 := argmaxA A (fun x => d.qc s1 x - d.qa s1 x)
     { qa := d.qa, qc := upd d.qc s a (d.qc s a + α * (r + γ * d.qa s1 a1 - (d.qc s a - d.qa s a))) }
+
+/-- the action DoubleQLearning bootstraps from: `qa_.row(s1).maxCoeff(&a1)` resp.
+    `(qc_.row(s1) - qa_.row(s1)).maxCoeff(&a1)` -/
+def dqArg (A : Nat) (d : DQ) (coin : Bool) (s1 : Nat) : Nat :=
+  if coin then argmaxA A (d.qa s1) else argmaxA A (fun x => d.qc s1 x - d.qa s1 x)
+
+/-- DoubleQLearning::stepUpdateQ; `coin` is the Bernoulli(1/2) draw `dist_(rand_)` -/
+def dqStep (γ α : Rat) (A : Nat) (d : DQ) (coin : Bool) (s a s1 : Nat) (r : Rat) : DQ :=
+  dqStepAt γ α d coin (dqArg A d coin s1) s a s1 r
 
 /-- DynaQ: the embedded QLearning plus the visited-pair list (`visitedStatesActionsSampler_`) -/
 structure Dyna where
